@@ -414,6 +414,19 @@ Example C04_example_rebuild_with_plan_rerun :
   attached (KStep, ExR.u) (run_ops ExR.ops ExR.q) = false.
 Proof. exact ExR_example. Qed.
 
+(* Executor.try_skip_job when the check is OVERTAKEN (an input record was replaced while the step was
+   CHECKING; translated structurally by gen_noop.py: gen_skip_overtaken_outcome): the step goes back to
+   PENDING and keeps its stored hash (1), hence the next dispatch is a check again, not a command; the
+   other translated outcome, _reset_step_to_pending (2), drops the hash and the next dispatch is RUNNING:
+   a command for a step none of whose inputs changed (seeded/C04-r4; the E3 family `overtaken` shows it
+   on the real director).  A variant with outcome 2 (or 0) breaks this theorem by name. *)
+Theorem C04_overtaken_check_keeps_the_hash :
+  gen_skip_overtaken_outcome = 1 /\
+  (forall l s s', GraphExt.skip_overtaken l s = Ok s' -> has_hash l s' = has_hash l s) /\
+  (forall l s s', step_op (OpResetToPending l) s = Ok s' -> has_hash l s' = false) /\
+  (forall l s, step_op (OpDispatch l) s = set_sstate l (if has_hash l s then SChecking else SRunning) false s).
+Proof. exact skip_overtaken_tie. Qed.
+
 (* ------------------------------------------------------------------------------------------ *)
 (* The second sentence about EXECUTED steps (not merely checked and skipped), on the engine      *)
 (* model/Engine.v: stored digests (traces), the skip check of try_skip_job, pending propagation, *)
